@@ -97,6 +97,7 @@ def run_property(prop, tier, seed, keep=False):
     lines, samples, assumptions = [], [], list(cfg.get("assumptions", []))
     viol, inconcl, knownhits = [], [], []
     n_oblig = n_disch = n_eval = n_nontriv = 0
+    pending = []  # failing harnesses whose counterexample still has to be replayed natively
     solver_s = 0.0
     base = overlay.make_scratch(prop + "-" + tier)
     try:
@@ -161,8 +162,14 @@ def run_property(prop, tier, seed, keep=False):
                     sample["verdict"] = "known-finding"
                     samples.append(sample)
                     continue
-                # unwinding-assertion failures alone are a bound problem unless they replay
-                tests, pout = kanirun.playback(base, h, feats, mem, htime + 600, r.get("unwindset"))
+                pending.append((h, feats, r, unknown, sample, mem, htime))
+                samples.append(sample)
+        # --- confirm solver counterexamples: concrete playback (parallel) + native replay on binaries built once
+        if pending:
+            from concurrent.futures import ThreadPoolExecutor
+            with ThreadPoolExecutor(max_workers=8) as ex:
+                pb = list(ex.map(lambda t: kanirun.playback(base, t[0], t[1], t[5], t[6] + 600, t[2].get("unwindset")), pending))
+            for (h, feats, r, unknown, sample, mem, htime), (tests, pout) in zip(pending, pb):
                 confirmed = None
                 tried = []
                 unknown_descs = set(it[0] for it in unknown)
@@ -195,7 +202,6 @@ def run_property(prop, tier, seed, keep=False):
                     inconcl.append("%s: solver counterexample for %s did not reproduce natively (%d playback vectors); see %s"
                                    % (h["name"], sorted(unknown_descs), len(tests), rp))
                     sample["verdict"] = "inconclusive-counterexample"
-                samples.append(sample)
         # --- extra (non-Kani) obligations
         for fn in cfg.get("extra", []):
             try:
